@@ -239,7 +239,12 @@ func (c *rpcComp) Exec(t []string) (extra []string, out string, eff bool) {
 		n, _ := strconv.Atoi(get("callers"))
 		l, _ := strconv.Atoi(get("limit"))
 		d, _ := strconv.Atoi(get("discard"))
-		return nil, rpcStorm(n, l, d), true
+		method := "echo"
+		if get("relay") == "1" {
+			method = "relay"
+		}
+		depth, _ := strconv.Atoi(get("descend"))
+		return nil, rpcStorm(n, l, d, method, depth), true
 	}
 	if c.codec == nil {
 		return nil, "bad-op", false
@@ -519,7 +524,36 @@ func (StormRecv) Echo(ctx context.Context, s string) (string, error) {
 
 // rpcStorm: two Remotes connected by a pipe, both with the given pending limit, n concurrent callers on each
 // side; every call must return its own token.
-func rpcStorm(n, limit, discard int) string {
+// Relay: the handler calls back over the connection its request arrived on before it answers
+func (StormRecv) Relay(ctx context.Context, s string) (string, error) {
+	svc, err := jsonrpc2.CtxService(ctx)
+	if err != nil {
+		return "", err
+	}
+	var res string
+	if err := svc.Call(ctx, &res, "echo", s); err != nil {
+		return "", err
+	}
+	return res, nil
+}
+
+// Descend: ping-pong recursion over one connection, n levels deep
+func (StormRecv) Descend(ctx context.Context, n int) (int, error) {
+	if n <= 0 {
+		return 0, nil
+	}
+	svc, err := jsonrpc2.CtxService(ctx)
+	if err != nil {
+		return 0, err
+	}
+	var res int
+	if err := svc.Call(ctx, &res, "descend", n-1); err != nil {
+		return 0, err
+	}
+	return res + 1, nil
+}
+
+func rpcStorm(n, limit, discard int, method string, depth int) string {
 	a, b := jsonrpc2.ServePipe()
 	a.PendingLimit, a.PendingDiscard = limit, discard
 	b.PendingLimit, b.PendingDiscard = limit, discard
@@ -534,10 +568,10 @@ func rpcStorm(n, limit, discard int) string {
 			go func(side, i int, r *jsonrpc2.Remote) {
 				defer wg.Done()
 				tok := fmt.Sprintf("s%d-%d-%s", side, i, strings.Repeat("x", i%11))
-				ctx, cancel := context.WithTimeout(context.Background(), 3*time.Second)
+				ctx, cancel := context.WithTimeout(context.Background(), 5*time.Second)
 				defer cancel()
 				var res string
-				err := r.Call(ctx, &res, "echo", tok)
+				err := r.Call(ctx, &res, method, tok)
 				mu.Lock()
 				if err == nil {
 					returned++
@@ -549,9 +583,38 @@ func rpcStorm(n, limit, discard int) string {
 			}(side, i, r)
 		}
 	}
-	wg.Wait()
+	deep := "-"
+	if depth > 0 {
+		wg.Add(1)
+		go func() {
+			defer wg.Done()
+			ctx, cancel := context.WithTimeout(context.Background(), 5*time.Second)
+			defer cancel()
+			var res int
+			if err := a.Call(ctx, &res, "descend", depth); err == nil {
+				mu.Lock()
+				deep = strconv.Itoa(res)
+				mu.Unlock()
+			}
+		}()
+	}
+	done := make(chan struct{})
+	go func() { wg.Wait(); close(done) }()
+	select {
+	case <-done:
+	case <-time.After(12 * time.Second):
+		// callers that do not even come back with their context's error: the connection is wedged
+		mu.Lock()
+		defer mu.Unlock()
+		return fmt.Sprintf("wedged returned=%d own=%d descend=%s", returned, own, deep)
+	}
 	a.Close()
 	b.Close()
+	mu.Lock()
+	defer mu.Unlock()
+	if depth > 0 {
+		return fmt.Sprintf("ok returned=%d own=%d descend=%s", returned, own, deep)
+	}
 	return fmt.Sprintf("ok returned=%d own=%d", returned, own)
 }
 
@@ -562,7 +625,15 @@ func (v *rpcStormVariant) Prefix() string { return "rpc" }
 func (v *rpcStormVariant) Gen(r *rand.Rand, idx int, emit func(string)) {
 	cfgs := [][3]int{{70, 50, 10}, {20, 5, 2}, {100, 50, 10}, {30, 0, 0}, {64, 8, 8}}
 	c := cfgs[idx%len(cfgs)]
-	emit(fmt.Sprintf("storm callers=%d limit=%d discard=%d", c[0], c[1], c[2]))
+	switch idx % 3 {
+	case 1:
+		// every handler calls back over the connection before answering
+		emit(fmt.Sprintf("storm callers=%d limit=%d discard=%d relay=1", []int{17, 40, 64}[(idx/3)%3], c[1], c[2]))
+	case 2:
+		emit(fmt.Sprintf("storm callers=%d limit=%d discard=%d descend=%d", 8, c[1], c[2], []int{20, 45, 80}[(idx/3)%3]))
+	default:
+		emit(fmt.Sprintf("storm callers=%d limit=%d discard=%d", c[0], c[1], c[2]))
+	}
 }
 
 func init() { components["rpc-storm"] = func() Component { return &rpcStormVariant{} } }
